@@ -145,9 +145,14 @@ def h11b_write(row, col, R, C, a1, how):
     assert t._model.nrows == t.num_rows and t._model.ncols == t.num_cols
 
 
-def h11c_iter(R, C, mn_r, mx_r, mn_c, mx_c, d_mn_r, d_mx_r, d_mn_c, d_mx_c, by_cols):
+def h11c_iter(R, C, mn_r, mx_r, mn_c, mx_c, d_mn_r, d_mx_r, d_mn_c, d_mx_c, by_cols, values_only=False):
     """iter_rows / iter_cols visit exactly the addressed rectangle in order; out-of-table bounds -> IndexError"""
     t = make_table(R, C)
+    if values_only:
+        # every cell gets a value of its own, so that a value says which cell it came from
+        for r in range(R):
+            for c in range(C):
+                t.write(r, c, "v%d.%d" % (r, c))
     a_mn_r = None if d_mn_r else mn_r
     a_mx_r = None if d_mx_r else mx_r
     a_mn_c = None if d_mn_c else mn_c
@@ -160,9 +165,9 @@ def h11c_iter(R, C, mn_r, mx_r, mn_c, mx_c, d_mn_r, d_mx_r, d_mn_c, d_mx_c, by_c
     all_inside = (0 <= e_mn_r <= e_mx_r < R) and (0 <= e_mn_c <= e_mx_c < C)
     try:
         if by_cols:
-            got = list(t.iter_cols(min_col=a_mn_c, max_col=a_mx_c, min_row=a_mn_r, max_row=a_mx_r))
+            got = list(t.iter_cols(min_col=a_mn_c, max_col=a_mx_c, min_row=a_mn_r, max_row=a_mx_r, values_only=values_only))
         else:
-            got = list(t.iter_rows(min_row=a_mn_r, max_row=a_mx_r, min_col=a_mn_c, max_col=a_mx_c))
+            got = list(t.iter_rows(min_row=a_mn_r, max_row=a_mx_r, min_col=a_mn_c, max_col=a_mx_c, values_only=values_only))
     except IndexError:
         assert not all_inside
         return
@@ -176,7 +181,10 @@ def h11c_iter(R, C, mn_r, mx_r, mn_c, mx_c, d_mn_r, d_mx_r, d_mn_c, d_mx_c, by_c
         for g, w in zip(got, want):
             assert len(g) == len(w)
             for x, y in zip(g, w):
-                assert x is y
+                if values_only:
+                    assert x == y.value
+                else:
+                    assert x is y
     else:
         # an empty or inverted rectangle may be reported as empty
         for g in got:
@@ -317,8 +325,9 @@ HARNESSES = [
             stubs=["Table over a grid of real empty cells; model stub"]),
     Harness("H11c", h11c_iter,
             lambda tier: dict(R=Cases([1, 3] if tier == "quick" else [1, 2, 3, 4]), C=Cases([2] if tier == "quick" else [1, 2, 3]), mn_r=IntDom(), mx_r=IntDom(), mn_c=IntDom(), mx_c=IntDom(),
-                 d_mn_r=BoolDom(), d_mx_r=BoolDom(), d_mn_c=BoolDom(), d_mx_c=BoolDom(), by_cols=Cases([False, True])),
-            bounds="min/max row/col: every Python int or None (default); shapes {1,3} x {2} (quick) / {1..4} x {1,2,3} (thorough)"),
+                 d_mn_r=BoolDom(), d_mx_r=BoolDom(), d_mn_c=BoolDom(), d_mx_c=BoolDom(), by_cols=Cases([False, True]),
+                 values_only=Cases([False, True])),
+            bounds="cells or values only; min/max row/col: every Python int or None (default); shapes {1,3} x {2} (quick) / {1..4} x {1,2,3} (thorough)"),
 ]
 
 
